@@ -637,3 +637,22 @@ def place_ty(prog, body, place):
         else:
             return None
     return dict(row, _crate=crate) if row is not None else None
+
+
+def innermost_loop(body, block):
+    """blocks of the innermost natural loop (headed by an Iterator::next call) that contains `block`;
+    empty set when the block is in no such loop"""
+    best = None
+    for b, t in body.calls():
+        if not (t.get("f") or "").endswith("Iterator::next"):
+            continue
+        hb = b
+        lp = natural_loop(body, hb)
+        steps = 0
+        while not lp and steps < 4 and len(body.pred(hb)) == 1:
+            hb = body.pred(hb)[0]
+            lp = natural_loop(body, hb)
+            steps += 1
+        if lp and block in lp and b in lp and (best is None or len(lp) < len(best)):
+            best = lp
+    return best or set()
